@@ -378,3 +378,57 @@ func H_C03_url_missing() {
 		vRunUrl("C03 Url(empty query)", "h?", nil, nil, rm)
 	}
 }
+
+// required replaced by a per-call rule set in one call must be back in the next call (and vice versa)
+func H_C03_sequence() {
+	known := vGlobalRules()
+	first := vndBool("overrideFirst")
+	for i := 0; i < 2; i++ {
+		o := &vRqStr{F: vStr("F" + vNum(i))}
+		vULog = nil
+		r := vNewRef()
+		r.global = known
+		var err error
+		if (i == 0) == first {
+			rm := RM{"F": "r2"}
+			err = Struct(o, vCopyRM(rm))
+			r.unscoped = rm
+		} else {
+			err = Struct(o)
+		}
+		r.top(o)
+		vCheckAgainstRef("C03 sequence call "+vNum(i), err, r)
+	}
+	vReach("end")
+}
+
+// required listed after other rules is still evaluated on an empty value
+type vRqLate struct {
+	F string `valid:"r1,to=1~5,required"`
+	G []int  `valid:"r2,required|need G,r1"`
+}
+
+func H_C03_required_last() {
+	o := &vRqLate{F: vStr("F")}
+	if vndBool("G") {
+		o.G = []int{1}
+	}
+	known := vGlobalRules()
+	vULog = nil
+	err := Struct(o)
+	r := vNewRef()
+	r.global = known
+	r.realBuiltin = map[string]string{} // "to" is real here: F has at most one rune, inside 1~5 unless empty (then skipped)
+	r.top(o)
+	// the real built-in "to" never fires on a 1-byte string within 1~5: drop its expected call
+	var out []vExp
+	for _, e := range r.out {
+		if e.isCall && vRuleKey(e.validName) == VTo {
+			continue
+		}
+		out = append(out, e)
+	}
+	r.out = out
+	vCheckAgainstRef("C03 required after other rules", err, r)
+	vReach("end")
+}
